@@ -103,6 +103,17 @@ CHECKS = {
         'overflow witnesses segfault 32 of 34 wrappers (known findings, one per routine). lapack.c, base.c products, sparse.c and '
         'misc_solvers.c are not yet translated (see DESIGN.md).',
    technique='Lean 4 proof over Lean functions translated from C + differential run against the real wrappers + overflow witness search'),
+ 'C17': dict(
+   category='proof',
+   text='Lean reference semantics of 23 BLAS routines on strided / leading-dimension views (hand-written from the BLAS definitions) with '
+        'frame theorems (only the addressed output view changes, buffers keep their length) for all sizes, offsets, increments and flags; '
+        'documented defaults proved about the argument prefix generated from blas.c. The real wrappers are compared exactly (all arguments, '
+        'integer/Gaussian data, d and z) with the reference semantics applied to the integers produced by the generated prefix.',
+   design_ref='DESIGN.md 5 C17',
+   note='Trusted: Lean kernel, Model/BlasSpec.lean (the specification), cwrap2lean, the external BLAS kernel on exact data. Routines '
+        'without a reference model yet: gbmv sbmv hbmv syr2 her2 symm hemm herk syr2k her2k trsm (their argument logic is covered by C19). '
+        'Known finding: k=0 skips leading-dimension checks.',
+   technique='Lean 4 reference semantics + frame proofs + exact differential comparison through the source-generated argument prefix'),
 }
 REASONS = {}
 def main():
